@@ -17,6 +17,10 @@ CHECKS = {
    technique="TLA+ E37 frame reference (HsmsFrame + E5Codec) as oracle over recorded real construct/serialize/decode/re-stamp observations",
    text="The real hsms constructors (NewDataMessage, NewDataMessageFromHeader, Derive..Build, all nine control factories), ToBytes/HeaderBytes, DecodeHSMSMessage/DecodeHSMSPayload and WithSessionID/WithSystemBytes/WithID/Derive chains are driven over the landmark product stream{0,1,63,64,127,128,255} x function{0,1,2,127,128,254,255} x W x session id x system bytes x bodies, all control kinds x status/reason bytes, errored bodies and random messages; TLC (OracleHsms) checks each line against HsmsFrame: construction accepts exactly ValidData and error-free bodies, frame = len4 || header || E5 body, decode/re-serialize identity, re-stamps change only their bytes.",
    note="Trusted: spec/fn/HsmsFrame.tla (E37 layout), E5Codec for bodies, TLC. The 'what a connection writes to the socket' clause is bound by the end-to-end recordings of C06/C07 (raw peer compares socket bytes with ToBytes)."),
+ "C05": dict(cat="model_checking", engine="supervisor-mc", design="§3.1, §4 C05",
+   technique="TLC exhaustive model check of an implementation-shaped TLA+ spec of the supervisor; TLC behaviours and counterexamples replayed on the real supervisor through gated verif hooks; recorded steps judged by a TLA+ property acceptor (trace validation)",
+   text="impl/Supervisor.tla models hsms/supervisor.go at the grain of its critical sections (commit CAS / echo enqueue / dequeue+load / apply / notifier, closed latch and sentinel, drop-oldest buffer). TLC explores every interleaving within the constants and checks the observable-level C05 formulas (E37 edges, no echo replay, T7 safety, closed stays closed, notification chain, final agreement). Thousands of TLC-generated behaviours (random walks of a larger model + every counterexample) are replayed step by step on the REAL supervisor with real CAS commits and the real step(), gated at the commit and state-load seams; every recorded step is judged by the property-level acceptor TraceE37; model-vs-code drift is measured (0 on the unchanged tree).",
+   note="Trusted: the environment assumptions of impl/Supervisor.tla (stated in the module), the verif driver hsms/export_verif.go (calls only real code), TLC. Known findings F1 and F5 (known_findings.json) are reproduced on every run and reported as KNOWN-FINDING. End-to-end C05 clauses over real transports are covered by the C07/C08/C10 recordings."),
 }
 
 NA = {
@@ -51,6 +55,8 @@ def main():
                serves_properties=["C01", "C02"], kind_free_text="TLA+ reference codec; TLC enumeration; ndjson spec-as-oracle pass"),
           dict(name="hsms-oracle", path="spec/fn/HsmsFrame.tla spec/trace/OracleHsms.tla harness/cmd/vh/c03.go",
                serves_properties=["C03", "C04"], kind_free_text="TLA+ E37 frame reference; ndjson spec-as-oracle pass"),
+          dict(name="supervisor-mc", path="spec/impl/Supervisor.tla spec/mc/MC_Supervisor.tla spec/trace/TraceE37.tla harness/cmd/vh/c05.go /repo/hsms/export_verif.go",
+               serves_properties=["C05"], kind_free_text="TLC exhaustive + simulation; gated replay on the real supervisor; TLA+ trace acceptor"),
         ],
         checks=checks, not_applicable=na,
         notes="All checks rebuild the Go harness from /repo's working tree (-tags verif). Exit 2 = inconclusive (never a violation).")
